@@ -38,6 +38,8 @@ REAL_VS_STUB = {
 
 FLAT = ["a", "b", "c", "dd", "q", "w"]
 NESTED = ["rates.k1", "rates.k2", "irf.center", "g.sub.x", "g.sub.y", "j.1"]
+# labels that are prefixes of each other ($rates.k1 vs $rates.k10, $k vs $k.a): the $-reference rewriting must not confuse them
+PREFIXY = ["rates.k1", "rates.k10", "rates.k", "irf.k1", "irf.k10", "rates.k11"]
 CONSTRUCTORS = ["from_list", "from_dict", "from_dataframe", "dict_list", "yml_str", "csv"]
 RELOADS = ["csv", "tsv", "xlsx", "yml_str", "dict_list", "dataframe"]
 
@@ -130,7 +132,7 @@ def gen_graph(rng: random.Random, n: int, labels):
 
 def generate(rng: random.Random, tier: str) -> dict:
     n = rng.choice([2, 3, 3, 4, 4, 5, 6])
-    labels = list(rng.choice([FLAT, NESTED, NESTED]))
+    labels = list(rng.choice([FLAT, NESTED, NESTED, PREFIXY]))
     rng.shuffle(labels)
     params = gen_graph(rng, n, labels[:n])
     order = list(range(n))
